@@ -37,7 +37,7 @@ Inductive op :=
 (* iterators *)
 | ODrain (v i : nat) (bs be : bound) | OSplice (v i : nat) (bs be : bound) (sc : script)
 | ODrainFilter (v i : nat) (sc : script) | OIntoIter (v i : nat)
-| ONext (i : nat) | ONextBack (i : nat) | ONth (i : nat) (k : Z) | OHint (i : nat) | OAsSlice (i : nat)
+| ONext (i : nat) | ONextBack (i : nat) | ONth (i : nat) (k : Z) | ONthBack (i : nat) (k : Z) | OCount (i : nat) | OLast (i : nat) | OHint (i : nat) | OAsSlice (i : nat)
 | OCloneIter (i j : nat) | ODropIter (i : nat) | OForgetIter (i : nat)
 | OUnknown.
 
@@ -154,6 +154,44 @@ Section Run.
              | Some e => drop_elem cfg e ;;; iter_nth k i
              | None => ret None
              end
+    end.
+
+  (* one back step (Drain / Splice / IntoIter) *)
+  Definition iter_back (i : nat) : M (option elem) :=
+    it <- iter_get i ;;
+    match it with
+    | IDrain d => r <- drain_next_back cfg d ;; iter_set i (Some (IDrain (snd r))) ;;; ret (fst r)
+    | IInto t => r <- into_next_back cfg t ;; iter_set i (Some (IInto (snd r))) ;;; ret (fst r)
+    | IFilter f => ub WildCursor         (* not double-ended: guarded by the step rule *)
+    end.
+  Fixpoint iter_nth_back (k : nat) (i : nat) : M (option elem) :=
+    match k with
+    | O => iter_back i
+    | S k => r <- iter_back i ;;
+             match r with
+             | Some e => drop_elem cfg e ;;; iter_nth_back k i
+             | None => ret None
+             end
+    end.
+  (* Iterator::count / Iterator::last, the provided methods: every element is taken and dropped (the
+     last one is returned by `last`); fuel bounds the number of elements *)
+  Fixpoint iter_count (fuel : nat) (i : nat) (n : Z) : M Z :=
+    match fuel with
+    | O => ret n
+    | S fuel => r <- iter_front i ;;
+                match r with
+                | Some e => drop_elem cfg e ;;; iter_count fuel i (n + 1)
+                | None => ret n
+                end
+    end.
+  Fixpoint iter_last (fuel : nat) (i : nat) (acc : option elem) : M (option elem) :=
+    match fuel with
+    | O => ret acc
+    | S fuel => r <- iter_front i ;;
+                match r with
+                | Some e => (match acc with Some a => drop_elem cfg a | None => ret tt end) ;;; iter_last fuel i (Some e)
+                | None => ret acc
+                end
     end.
 
   Definition step (o : op) : M (outtag * retv) :=
@@ -295,6 +333,18 @@ Section Run.
         if iter_exists s i && (0 <=? k) && (k <=? 64) then
           with_ret (r <- iter_nth (Z.to_nat k) i ;; yield r)
         else SKIP
+    | ONthBack i k =>
+        if iter_exists s i && (0 <=? k) && (k <=? 64) then
+          it <- iter_get i ;;
+          match it with
+          | IFilter _ => SKIP
+          | _ => with_ret (r <- iter_nth_back (Z.to_nat k) i ;; yield r)
+          end
+        else SKIP
+    | OCount i =>
+        if iter_exists s i then with_ret (n <- iter_count 1024 i 0 ;; ret (RNum n)) else SKIP
+    | OLast i =>
+        if iter_exists s i then with_ret (r <- iter_last 1024 i None ;; yield r) else SKIP
     | ONextBack i =>
         if iter_exists s i then
           it <- iter_get i ;;
